@@ -10,6 +10,11 @@ CHECKS = {
         technique="property-based testing (Hypothesis): generated schema x population x layout, round-trip oracle against an independent Part 21 parser and the generator's model",
         text="Generated EXPRESS schemas are compiled with the tree's exp2cxx; generated conforming populations are read and written by the real library; an independent Part 21 parser maps the written bytes back to the generator's model (two-sided equality, reals to 15 digits) and the second write must be byte-identical. Search, not proof: held on N generated cases.",
         note="Trusts: the schema/population generators produce only valid schemas / conforming files (validated by check-express and by the independent parser), the reference attribute order of ISO 10303-21 11.2.5.2 in lib/expmodel.py. Open finding F20 (comments inside an instance) is excluded by construction and probed on every run."),
+    "C09": dict(
+        level="exploration", ref="DESIGN.md section 4 C09",
+        technique="exhaustive enumeration of short token strings per literal kind x delimiter context + rapidcheck random long tokens and writer grid, in-process against DFA recognisers transcribed from the Part 21 BNF and strtod/128-bit integer value functions",
+        text="Every string up to a length bound over each kind's alphabet is fed to the attribute reader and to the instance reader of a fixture schema library; verdict, value and stream position are compared with recognisers written from the BNF. The writer is checked on a grid of integers near 2^k/10^k and reals with exponents -300..300 (token in grammar, reads back equal). Exhaustive for the enumerated sub-space, sampled beyond it.",
+        note="Closed leniency table (NUMBER without decimal point / lower-case e; enumeration letter case) justified from reader source, listed in the evidence assumptions. Out-of-grammar STRING/BINARY bodies that are stored verbatim are counted, not asserted. Open finding F30 (stray '/' or '\\' swallowed by the token separator) is matched by signature."),
     "C13": dict(
         level="exploration", ref="DESIGN.md section 4 C13",
         technique="stateful property-based testing (rapidcheck rc::state) + exhaustive enumeration of short command sequences, list/dict reference model, ASan/UBSan build",
